@@ -12,7 +12,9 @@ def run_retr(chk, tiers, judge=None, replay=None, chunk=80):
             chk.disagreement(replay, v, rp)
         return
     for t in tiers:
-        run = vcheck.TlcRun('MC_NixRetrieval', 'MC_NixRetrieval_%s.cfg' % t, workers=8, coverage=False)
+        import os
+        cfgname = 'MC_NixRetrieval_%s_t.cfg' % t if (chk.thorough and os.path.exists(vcheck.SPEC + '/MC_NixRetrieval_%s_t.cfg' % t)) else 'MC_NixRetrieval_%s.cfg' % t
+        run = vcheck.TlcRun('MC_NixRetrieval', cfgname, workers=8, coverage=False)
         recs, verdicts = rp.run(r for r in run if judge is None or judge(r))
         run.require_ok()
         if run.lines == 0:
